@@ -1447,6 +1447,25 @@ pub fn units() -> Vec<Unit> {
             Fn("LoRa::get_rx_result"),
         ],
     },
+    // ---- builder F, follow-up (C19): the setters generic over `T: Into<X>`, at `T = X`
+    Unit {
+        module: "Gen.MacCmdCreatorIntoFn",
+        file: "lorawan-encoding/src/maccommandcreator.rs",
+        more_files: vec!["lorawan-encoding/src/types.rs", "lorawan-encoding/src/maccommands.rs", "lorawan-macros/src/lib.rs"],
+        imports: vec![],
+        items: vec![
+            CustomMulti(crate::maccmd::payloads),
+            Newtype("Redundancy"),
+            Fn("Redundancy::raw_value"),
+            Newtype("DataRateRange"),
+            Fn("DataRateRange::raw_value"),
+            Newtype("ChannelMask"),
+            TraitFn("AsRef", "ChannelMask", "as_ref"),
+            Newtype("Frequency"),
+            TraitFn("AsRef", "Frequency", "as_ref"),
+            CustomMulti(crate::maccmd_creators2::creators_into),
+        ],
+    },
     ]
 }
 
